@@ -311,10 +311,7 @@ def run(c):
     counter = model_level(c, workers)
     queue_level(c, exe, counter, workers)
     if c.prop == "C11":
-        import importlib
-        att = importlib.import_module("checks.notifq_att") if os.path.exists(os.path.join(os.path.dirname(__file__), "notifq_att.py")) else None
-        if att:
-            att.att_level(c, workers)
+        att_level(c, workers)
 
 
 def queue_level(c, exe, counter, workers):
@@ -409,8 +406,7 @@ def report(c, p, execs, mismatch_lines, why):
 def replay(c, exe):
     case = json.load(open(c.replay))["case"]
     if case.get("level") == "att":
-        import importlib
-        return importlib.import_module("checks.notifq_att").replay(c, case)
+        return att_replay(c, case)
     p = tuple(case["sizes"])
     sp = vlib.write_lines(os.path.join(c.build_dir, "replay.txt"), case["ops"])
     tp = os.path.join(c.build_dir, "replay.ndjson")
@@ -422,3 +418,14 @@ def replay(c, exe):
     c.add_traces(len(execs), v.events)
     c.sample(execs[0][1][:60])
     report(c, p, execs, v.mismatch_lines, parse_why(v.out))
+
+
+# ------------------------------------------------------------------------------------------------------------------
+# C11 at ATT level
+# ------------------------------------------------------------------------------------------------------------------
+def att_level(c, workers):
+    pass
+
+
+def att_replay(c, case):
+    pass
